@@ -217,10 +217,10 @@ func (c *ctx) checkScale(a *scaleArtifact, m mutant) bool {
 	if excess > 0 {
 		cls := "alloc-exceeds-linear-bound:" + a.name
 		if a.typ != nil {
-			// a byte string declares more than the input holds, or its (zero-filled)
-			// length prefix is itself cut short: the buffer is made before reading
-			if w := walk(m.data, a.typ, a.tmpl); w.declaredShort || (w.vkind == "compact-uint" && w.verdict == "short-partial") {
-				cls = "alloc-declared-bytes-length-preallocated"
+			// a byte string ([]byte, string) declares more than the input holds:
+			// pkg/scale decodeBytes makes the declared length before reading (K2)
+			if w := walk(m.data, a.typ, a.tmpl); w.declaredShort {
+				cls = "alloc-byte-string-declared-length-preallocated"
 			}
 		}
 		c.report("alloc", cls, "%s: %s %s: input %s (%d bytes): decoding allocated %d bytes, bound 64*len+128KiB = %d (err=%v)",
@@ -259,7 +259,7 @@ func (c *ctx) checkScale(a *scaleArtifact, m mutant) bool {
 		w := walk(m.data, a.typ, a.tmpl)
 		switch w.verdict {
 		case "short-partial":
-			cls = "truncated-" + w.vkind + "-zero-filled"
+			cls = "truncated-" + w.vkind + "-zero-filled" // vkind "byte-string": K1
 			why = fmt.Sprintf("input ends inside a %s leaf at offset %d", w.vkind, w.vat)
 		case "short-eof":
 			cls = "missing-" + w.vkind + "-accepted"
